@@ -771,8 +771,23 @@ func (fa *FA) ensureInvariants() {
 // whose atoms it mentions: once as it stands, once guarded by the conditions
 // tested between that block and b.
 func (fa *FA) generalize(goal *Lin, b *ssa.BasicBlock, c *pctx) bool {
-	A := fa.A
 	if fa.generalized > 400 {
+		return false
+	}
+	if !fa.addGoalCands(goal, b, c, 0) {
+		return false
+	}
+	fa.generalized++
+	fa.runHoudini()
+	return true
+}
+
+// addGoalCands adds goal as a candidate at the deepest phi block it mentions
+// and, transitively, the goal as it reads on that block's entry edges at the
+// phi blocks further up (chains of joins).
+func (fa *FA) addGoalCands(goal *Lin, b *ssa.BasicBlock, c *pctx, depth int) bool {
+	A := fa.A
+	if depth > 3 {
 		return false
 	}
 	var cands []*ssa.BasicBlock
@@ -824,13 +839,22 @@ func (fa *FA) generalize(goal *Lin, b *ssa.BasicBlock, c *pctx) bool {
 				added = true
 			}
 		}
+		// what the goal says on the entry edges, offered to the phi blocks above
+		for k, p := range m.Preds {
+			if m.Dominates(p) {
+				continue
+			}
+			gk := normIneq(goal.substAll(fa.substFor(m, k, goal)))
+			if gk.isConst() {
+				continue
+			}
+			if fa.addGoalCands(gk, p, &pctx{}, depth+1) {
+				added = true
+			}
+		}
+		break // deepest block only
 	}
-	if !added {
-		return false
-	}
-	fa.generalized++
-	fa.runHoudini()
-	return true
+	return added
 }
 
 // entryConst returns the constant a loop phi starts from (its value on the
